@@ -724,6 +724,13 @@ def generators_to_loops(tree):
                         new = [ast.For(target=ast.Name(id=nm, ctx=ast.Store()), iter=v.args[0], body=[ast.Expr(value=ast.YieldFrom(value=ast.Name(id=nm, ctx=ast.Load())))], orelse=[])]
                     elif isinstance(v, (ast.GeneratorExp, ast.ListComp)) and ok_targets(v):
                         new = wrap(v.generators, [ast.Expr(value=ast.Yield(value=v.elt))])
+                elif isinstance(s, ast.For) and isinstance(s.target, ast.Tuple) and isinstance(s.iter, (ast.GeneratorExp, ast.ListComp)) and not s.orelse and len(s.iter.generators) == 1 \
+                        and not s.iter.generators[0].is_async and ast.dump(s.iter.generators[0].target) == ast.dump(s.target) \
+                        and ast.dump(s.iter.elt) == ast.dump(s.target).replace('Store()', 'Load()') \
+                        and (isinstance(s.iter, ast.GeneratorExp) or not ({n.id for t_ in s.iter.generators[0].ifs for n in ast.walk(t_) if isinstance(n, ast.Name)} &
+                                                                          {n.id for b_ in s.body for n in ast.walk(b_) if isinstance(n, ast.Name) and isinstance(n.ctx, ast.Store)})):
+                    # `for a, b in [(a, b) for a, b in I if C]: BODY` (a pre-filtered list under the same names; BODY does not re-bind what C reads) is `for a, b in I: if C: BODY`
+                    new = wrap(s.iter.generators, s.body)
                 elif isinstance(s, ast.For) and isinstance(s.target, ast.Name) and isinstance(s.iter, ast.GeneratorExp) and not s.orelse and len(s.iter.generators) == 1 \
                         and isinstance(s.iter.generators[0].target, ast.Name) and s.iter.generators[0].target.id == s.target.id and isinstance(s.iter.elt, ast.Name) \
                         and s.iter.elt.id == s.target.id and not s.iter.generators[0].is_async:
@@ -750,7 +757,7 @@ def generators_to_loops(tree):
 
     for node in ast.walk(tree):
         if isinstance(node, (ast.FunctionDef, ast.AsyncFunctionDef)):
-            if any(isinstance(n, (ast.Yield, ast.YieldFrom)) for n in ast.walk(node)) or any(isinstance(n, ast.For) and isinstance(n.iter, ast.GeneratorExp) for n in ast.walk(node)):
+            if any(isinstance(n, (ast.Yield, ast.YieldFrom)) for n in ast.walk(node)) or any(isinstance(n, ast.For) and isinstance(n.iter, (ast.GeneratorExp, ast.ListComp)) for n in ast.walk(node)):
                 rewrite_function(node)
     return count[0]
 
